@@ -8,6 +8,49 @@ PY = '/venv/bin/python'
 
 # id -> (engine, category, technique, text, note, design_ref)
 CHECKS = {
+    'C01': ('E-seq', 'model_checking',
+            'explicit-state BFS over request histories of the real service, depth-bounded',
+            'All histories up to depth 4 (quick) / 5 (thorough) from three start states (no inventory, '
+            'nearly full, over-committed by an inventory shrink) over inventory replacement to variants '
+            'where reserved/max_unit/min_unit/step_size/fractional ratio each bind, PUT/POST/DELETE '
+            'allocations at 1.8/1.12/1.28/1.39 for 2-3 consumers on one or two providers (several '
+            'consumers landing on one inventory, clear-while-grow) and reshaper moving usage; on every '
+            'transition the capacity/unit predicate is evaluated on the raw rows in IEEE double arithmetic.',
+            'depth-bounded small scope (2 providers, 1 class, 2-3 consumers, amounts <= 4); SQLite stands in for the DBMS',
+            'DESIGN.md 5.C01'),
+    'C04': ('E-seq', 'model_checking',
+            'explicit-state BFS + exhaustive failure placement on every explored state',
+            'In every state of a BFS (depth 2 quick / 3 thorough) every request of a failure-placement '
+            'generator is executed: POST /allocations (3 consumers x 2 providers), reshaper, PUT inventories/'
+            'traits/aggregates with exactly element i broken in each failure kind (thorough: plus a second '
+            'failure at j>i); a request answered >=400 must leave all tables and generations unchanged except '
+            'projects/users/consumer_types; an accepted one must be stored exactly as named.',
+            'small scope; effect oracle compares stored rows with what the request names (not a full model)',
+            'DESIGN.md 5.C04'),
+    'C08': ('E-seq', 'model_checking',
+            'explicit-state BFS over request histories of the real service, depth-bounded',
+            'All histories up to depth 3 (quick) / 5 (thorough) from three start states over creation, '
+            'replacement and deletion of providers, inventories (standard + custom class), custom class/trait, '
+            'aggregates, allocations and reshaper; INV-ref is evaluated on the raw rows after every request and '
+            'every DELETE is compared with its refusal/cascade semantics.',
+            'depth-bounded small scope; SQLite with foreign keys enforced',
+            'DESIGN.md 5.C08'),
+    'C10': ('E-seq', 'model_checking',
+            'explicit-state BFS over request histories with a generation monitor on every transition',
+            'All histories up to depth 2 (quick) / 4 (thorough) from two populated start states over an alphabet '
+            'containing every write path, their stale-generation variants and every read route; the concrete '
+            'pre/post generation columns are compared on every transition and the generation echoed by every '
+            'read is compared with the stored one in every state.',
+            'depth-bounded small scope',
+            'DESIGN.md 5.C10'),
+    'C12': ('E-seq', 'model_checking',
+            'explicit-state BFS to a fixpoint over request histories of the real service',
+            'The abstract space (which consumers exist with which project/user/type) closes under the alphabet '
+            '(allocation writes at 1.7/1.8/1.12/1.13/1.28/1.38, rejected variants, DELETE, reshaper) so the BFS '
+            'reaches a fixpoint under default and overridden incomplete_consumer_* configuration; INV-consumer is '
+            'evaluated on the rows after every request and GET /allocations is probed in every state.',
+            'pool of 2 (quick) / 3 (thorough) consumers; amounts 0/1',
+            'DESIGN.md 5.C12'),
     'C09': ('E-seq', 'model_checking',
             'explicit-state BFS to a fixpoint over request histories of the real service',
             'Every history of POST/PUT/DELETE /resource_providers requests (microversions 1.13, '
